@@ -495,6 +495,13 @@ func (g *Gen) genKind(k string) *Op {
 		}
 		c := cs[r.Intn(len(cs))]
 		op := &Op{K: "complete", A: c.sp.Idx, D: c.d}
+		// slot-based reference: survives re-selection of providers under shrinking
+		for k := 1; k <= 12; k++ {
+			if h := e.holderOf(e.Data[c.d], k, false); h == c.sp {
+				op.Slot = k
+				break
+			}
+		}
 		if r.Chance(0.03) {
 			op.N = int64(r.Range(-1, 1))
 		}
@@ -566,7 +573,14 @@ func (g *Gen) genKind(k string) *Op {
 				sh, ok := s.Order.Shards[sid]
 				if ok && sh.Status == ordertypes.ShardCompleted {
 					if a := w.ByAddr[sh.Sp]; a != nil {
-						return &Op{K: "migrate", A: a.Idx, Ds: []int{i}}
+						op := &Op{K: "migrate", A: a.Idx, Ds: []int{i}}
+						for k := 1; k <= 12; k++ {
+							if h := e.holderOf(d, k, true); h == a {
+								op.Slot = k
+								break
+							}
+						}
+						return op
 					}
 				}
 			}
